@@ -146,8 +146,9 @@ def fiber_types():
 
 @st.composite
 def span_entry(draw, power_mode=None, eol=None, padding=None, max_length=None):
-    lo = draw(st.sampled_from([0, -1, -2, -4]))
-    hi = draw(st.sampled_from([0, 1, 3, 5]))
+    # bounds need not lie on the step grid (the rule is: round to the step, then clamp to the range)
+    lo = draw(st.sampled_from([0, -1, -2, -4, -1.2, -0.3]))
+    hi = draw(st.sampled_from([0, 1, 3, 5, 2.3, 0.7]))
     return {
         'power_mode': draw(st.booleans()) if power_mode is None else power_mode,
         'delta_power_range_db': [lo, hi, draw(st.sampled_from([0.5, 0.5, 1, 0.2]))],
@@ -446,8 +447,11 @@ def chain(draw, lid, direction, eq_json, spans=(1, 3), fused=True, user_amps=Tru
         els.append({'uid': f'fused {tag}.b', 'type': 'Fused', 'params': {'loss': draw(st.sampled_from([0, 0.5, 1]))},
                     'metadata': _meta(tag)})
     n = draw(st.integers(*spans))
+    # a chain of short fibres (patch cords, intra-office links): the whole span stays below the padding
+    short = length_km is None and draw(st.integers(0, 4)) == 0
     for k in range(n):
-        v, p = draw(fiber_params(length_km=length_km, **(fiber_kw or {})))
+        lk = draw(st.sampled_from([0.5, 2.0, 5.0, 10.0, 20.0])) if short else length_km
+        v, p = draw(fiber_params(length_km=lk, **(fiber_kw or {})))
         f = {'uid': f'fiber {tag}.{k}', 'type': 'Fiber', 'type_variety': v, 'params': p, 'metadata': _meta(tag)}
         if raman and draw(st.integers(0, 3)) == 0 and not isinstance(p['loss_coef'], dict):
             f['type'] = 'RamanFiber'
@@ -467,6 +471,10 @@ def chain(draw, lid, direction, eq_json, spans=(1, 3), fused=True, user_amps=Tru
             elif j == 'fused':
                 els.append({'uid': f'fused {tag}.{k}', 'type': 'Fused',
                             'params': {'loss': draw(st.sampled_from([0, 0.5, 1, 2]))}, 'metadata': _meta(tag)})
+                if draw(st.integers(0, 2)) == 0:
+                    # two junctions in a row (patch panel + splice): the span still runs from amplifier to amplifier
+                    els.append({'uid': f'fused {tag}.{k}.bis', 'type': 'Fused',
+                                'params': {'loss': draw(st.sampled_from([0, 0.5, 1]))}, 'metadata': _meta(tag)})
     if user_amps and draw(st.integers(0, 3)) == 0:
         els.append(draw(amp_element(f'preamp {tag}', eq_json, tag)))
     return els
